@@ -36,6 +36,9 @@ Proof. induction pu as [|[b [|]] pu IH]; cbn; rewrite ?IH; reflexivity. Qed.
 Lemma filter_app_one (pu : list (Z * bool)) x : filter (fun x => negb (snd x)) (pu ++ [x]) = filter (fun x => negb (snd x)) pu ++ (if negb (snd x) then [x] else []).
 Proof. rewrite filter_app. reflexivity. Qed.
 
+Lemma filter_sync_nil (l : list Z) : filter (fun x : Z * bool => negb (snd x)) (map (fun qb : Z => (qb, true)) l) = [].
+Proof. induction l as [|a l IH]; cbn; [reflexivity|exact IH]. Qed.
+
 Lemma replace_last_op_quiet f by_ f' :
   replace_last_op f by_ = Some f' -> quiet_pushes f' = quiet_pushes f ++ quiet_pushes by_.
 Proof.
@@ -89,7 +92,9 @@ Ltac norm_members :=
   end;
   simp_state;
   rewrite ?map_app, ?quiet_pushes_app, ?quiet_pushes_map, ?filter_app_one, ?cnt_app in *;
+  rewrite ?filter_app in *;
   cbn [quiet_pushes quiet_ph cnt map fst snd tl app negb filter] in *;
+  rewrite ?filter_sync_nil, ?app_nil_r in *;
   rewrite ?map_app, ?cnt_app in *; cbn [cnt map fst] in *.
 
 Lemma qsync_head s rest : QShape s -> fifo s = QSync :: rest -> rest = [QIter] /\ rendering s = true.
